@@ -601,7 +601,15 @@ def _apply(m, op):
             except EVAL_ERRORS as e:
                 raise ModelReject("python raises: %r" % (e,))
             return _apply(m, ("setv", path, v))
-        return _apply(m, ("sete", path, ("bin", o, ("lit", m.val[path]), operand)))
+        cur = m.val[path]
+        if isinstance(cur, float) and (cur != cur or cur in (float("inf"), float("-inf"))):
+            # the old value becomes a literal of the new expression; C11 quantifies over finite constants only
+            raise ModelReject("non-finite value would become a literal")
+        if isinstance(cur, float) and cur == 0.0:
+            # the sign of a float zero is not compared anywhere (same() equates -0.0 and 0.0: Cython's float*int
+            # fast path gives 0.0 * -3 == 0.0 where the interpreter gives -0.0), so it must not enter printed text
+            raise ModelReject("float zero of unspecified sign would become a literal")
+        return _apply(m, ("sete", path, ("bin", o, ("lit", cur), operand)))
     if kind == "unreg":
         path = op[1]
         if path not in m.defs:
